@@ -281,6 +281,21 @@ Definition pl_step (s : pl_state) (l : pl_label) : option pl_state :=
   | PlLClose => Some (pl_set_closed true s)
   end.
 
+(* The REJECTED design "a write that failed gives its wire id back" (nextQid-- after a failed write, assuming the id
+   was the latest one assigned).  Only used by Props/C05.v to exhibit the schedule on which it reuses an id
+   (C05_giveback_refuted). *)
+Definition pl_gb_step (s : pl_state) (l : pl_label) : option pl_state :=
+  match l, pl_step s l with
+  | PlLWrite _ false, Some s' => Some (pl_set_nextQid (pl_nextQid s' - 1) s')
+  | _, r => r
+  end.
+
+Fixpoint pl_gb_run (ls : list pl_label) (s : pl_state) : option pl_state :=
+  match ls with
+  | [] => Some s
+  | l :: r => match pl_gb_step s l with Some s' => pl_gb_run r s' | None => None end
+  end.
+
 Fixpoint pl_run (ls : list pl_label) (s : pl_state) : option pl_state :=
   match ls with
   | [] => Some s
@@ -306,13 +321,41 @@ Inductive pl_event :=
 | PlEvEmitId (i tag : N)        (* server emits a message with header id i *)
 | PlEvGarbage
 | PlEvCancel (k : N)
-| PlEvClose.
+| PlEvClose
+| PlEvStartFail (c : N) (cl : bool) (* a new exchange whose net.Conn.Write FAILS.  cl = false: the connection stays open
+                                   (EMSGSIZE for a query of 65508..65535 octets on a datagram socket; any write error on
+                                   TCP / DoT); cl = true: write calls closeWithErr (any other error on a datagram socket) *)
+| PlEvHold (c : N)              (* a new exchange that is assigned its id and then sits inside net.Conn.Write *)
+| PlEvRelease (k : N) (ok cl : bool). (* the pending Write of exchange k returns: success / error (cl as above) *)
 
 Definition pl_do_emit (i tag : N) (s : pl_state) : pl_state :=
   let s1 := pl_exec (pl_exec s (PlLRecv i tag)) PlLLookup in
   let tgt := match pl_rl s1 with PlRSend _ t => Some t | _ => None end in
   let s2 := pl_exec s1 PlLSend in
   match tgt with Some t => pl_settle t s2 | None => s2 end.
+
+(* the wire id under which the SERVER has seen the query of an exchange: none while the exchange is still inside
+   write, none when its write failed (or addQueueC refused) *)
+Definition pl_seen_wid (th : pl_thread) : option N :=
+  match pl_tpc th with
+  | PlPStart | PlPAdded => None
+  | PlPReturned PlRErrEoL | PlPReturned PlRErrWrite | PlPLeaving PlRErrWrite | PlPEol PlRErrWrite => None
+  | _ => pl_twid th
+  end.
+
+(* exchange t left with a write error (its Write was attempted and failed) *)
+Definition pl_write_failed (s : pl_state) (t : N) : bool :=
+  match pl_tget s t with
+  | Some th => match pl_tpc th with
+               | PlPReturned PlRErrWrite | PlPLeaving PlRErrWrite | PlPEol PlRErrWrite => true
+               | _ => false
+               end
+  | None => false
+  end.
+
+(* datagram socket, error other than EMSGSIZE: write itself closes the connection *)
+Definition pl_fail_close (cl : bool) (t : N) (s : pl_state) : pl_state :=
+  if cl && pl_write_failed s t then pl_settle_all (pl_exec s PlLClose) else s.
 
 Definition pl_big_step (s : pl_state) (e : pl_event) : pl_state :=
   match e with
@@ -321,13 +364,24 @@ Definition pl_big_step (s : pl_state) (e : pl_event) : pl_state :=
       pl_settle t (fold_left pl_exec [PlLSpawn c; PlLAdd t; PlLWrite t true; PlLWrite t false] s)
   | PlEvReplyTo k tag =>
       match pl_tget s k with
-      | Some th => match pl_twid th with Some w => pl_do_emit w tag s | None => s end
+      | Some th => match pl_seen_wid th with Some w => pl_do_emit w tag s | None => s end
       | None => s
       end
   | PlEvEmitId i tag => pl_do_emit i tag s
   | PlEvGarbage => pl_settle_all (pl_exec s PlLGarbage)
   | PlEvCancel k => pl_settle k (pl_exec s (PlLCancel k))
   | PlEvClose => pl_settle_all (pl_exec s PlLClose)
+  | PlEvStartFail c cl =>
+      let t := pl_nthreads s in
+      pl_fail_close cl t (pl_settle t (fold_left pl_exec [PlLSpawn c; PlLAdd t; PlLWrite t false] s))
+  | PlEvHold c =>
+      let t := pl_nthreads s in
+      if pl_closed s then      (* the pool never hands out a closed connection: the call fails at once *)
+        pl_settle t (fold_left pl_exec [PlLSpawn c; PlLAdd t; PlLWrite t false] s)
+      else pl_settle t (fold_left pl_exec [PlLSpawn c; PlLAdd t] s)
+  | PlEvRelease k ok cl =>
+      pl_fail_close cl k
+        (pl_settle k (fold_left pl_exec (if ok then [PlLWrite k true; PlLWrite k false] else [PlLWrite k false]) s))
   end.
 
 Definition pl_run_history (tcp : bool) (q0 : N) (evs : list pl_event) : pl_state :=
